@@ -184,6 +184,7 @@ def run_verus_unit(prop, u, workdir, variant="main"):
     res = _run_verus_unit(prop, u, workdir, variant, ())
     if res.get("status") == "tool-error" and res.get("info"):
         missing = sorted(set(re.findall(r"cannot find function `(\w+)` in this scope", res.get("stderr", ""))))
+        missing_c = sorted(set(re.findall(r"cannot find value `([A-Z][A-Z0-9_]*)` in this scope", res.get("stderr", ""))))
         files = sorted({i["file"] for i in res["info"]["items"]})
         extra = []
         for nm in missing:
@@ -192,6 +193,13 @@ def run_verus_unit(prop, u, workdir, variant="main"):
             if d is None:
                 return res
             extra.extend(d)
+        for nm in missing_c:
+            with ASSEMBLE_LOCK:
+                d = extract.auto_const_directives(REPO, files, nm)
+            if d is None:
+                return res
+            extra.extend(d)
+        missing = missing + missing_c
         if extra:
             res2 = _run_verus_unit(prop, u, workdir, variant, tuple(extra))
             if res2.get("info"):
